@@ -71,7 +71,7 @@ QueryPoints(c) == {0, 1, 2, 5, P - 1, RootN(WireLen(c)), Mul(RootN(WireLen(c)), 
 VARIABLE st
 Group(c, inp, ns) == [ph |-> "group", c |-> c, inp |-> inp, ns |-> ns]
 Small == Tier = "quick" /\ P # 17
-Init == st \in UNION {{Group(c, inp, ns) : inp \in Inputs(c), ns \in IF Small THEN {1, 3} ELSE {1, 2, 3}} : c \in Circuits}
+Init == st \in UNION {{Group(c, inp, ns) : inp \in Inputs(c), ns \in IF Small THEN {1, 3} ELSE {1, 2, 3, 8}} : c \in Circuits}
 InitExhaustive == st \in {Group(c, <<x>>, 1) : c \in {[kind |-> "Count"], [kind |-> "HigherDegree"], [kind |-> "Sum", max |-> 1]}, x \in F}
 InitEnc == st \in UNION {{[ph |-> "enc", c |-> c, m |-> m] : m \in Meas(c)} : c \in Circuits}
 
@@ -86,6 +86,7 @@ ProveDefined(c, li, lp, lj) == li = InputLen(c) /\ lp = ProveRandLen(c) /\ lj = 
 QueryDefined(c, li, lpf, lq, lj) == li = InputLen(c) /\ lpf = ProofLen(c) /\ lq = QueryRandLen(c) /\ lj = JointRandLen(c)
 DecideDefined(c, lv) == lv = VerifierLen(c)
 Deltas == {-1, 0, 1}
+Far(x) == {0, 1, x \div 2, 2 * x, x + 7}
 Probes(c) ==
   LET nat(x) == IF x < 0 THEN 0 ELSE x IN
   {[op |-> "prove", lens |-> <<nat(InputLen(c) + a), nat(ProveRandLen(c) + b), nat(JointRandLen(c) + d)>>,
@@ -93,6 +94,12 @@ Probes(c) ==
   \cup {[op |-> "query", lens |-> <<nat(InputLen(c) + a), nat(ProofLen(c) + b), nat(QueryRandLen(c) + d), nat(JointRandLen(c) + e)>>,
     ok |-> QueryDefined(c, nat(InputLen(c) + a), nat(ProofLen(c) + b), nat(QueryRandLen(c) + d), nat(JointRandLen(c) + e))] : a \in Deltas, b \in Deltas, d \in Deltas, e \in Deltas}
   \cup {[op |-> "decide", lens |-> <<nat(VerifierLen(c) + a)>>, ok |-> DecideDefined(c, nat(VerifierLen(c) + a))] : a \in {-1, 0, 1, 2}}
+  \* one argument far from its declared length (empty, a single element, half, double, seven more), the others as declared
+  \cup {[op |-> "prove", lens |-> l, ok |-> ProveDefined(c, l[1], l[2], l[3])] :
+          l \in UNION {{[<<InputLen(c), ProveRandLen(c), JointRandLen(c)>> EXCEPT ![k] = v] : v \in Far(<<InputLen(c), ProveRandLen(c), JointRandLen(c)>>[k])} : k \in 1..3}}
+  \cup {[op |-> "query", lens |-> l, ok |-> QueryDefined(c, l[1], l[2], l[3], l[4])] :
+          l \in UNION {{[<<InputLen(c), ProofLen(c), QueryRandLen(c), JointRandLen(c)>> EXCEPT ![k] = v] : v \in Far(<<InputLen(c), ProofLen(c), QueryRandLen(c), JointRandLen(c)>>[k])} : k \in 1..4}}
+  \cup {[op |-> "decide", lens |-> <<v>>, ok |-> DecideDefined(c, v)] : v \in Far(VerifierLen(c))}
 InitEncBig == st \in UNION {{[ph |-> "enc", c |-> c, m |-> m] : m \in Meas(c)} : c \in CircuitsBig}
 InitEncHuge == st \in UNION {{[ph |-> "enc", c |-> c, m |-> m] : m \in Meas(c)} : c \in CircuitsHuge}
 InitProbe == st \in {[ph |-> "probe", c |-> c] : c \in Circuits}
